@@ -14,13 +14,16 @@ package ledger
 import (
 	"context"
 	"encoding/binary"
+	"encoding/json"
 	"errors"
 	"fmt"
 	"os"
+	"path/filepath"
 	"runtime"
 	"runtime/debug"
 	"sort"
 	"strings"
+	"sync/atomic"
 	"testing"
 	"time"
 
@@ -224,6 +227,9 @@ type vc08World struct {
 	phase  int // 0 idle, 1 at G1, 2 at G2
 	sparse bool // only a random third of the lookups of a sweep are issued
 	done   chan struct{}
+	arm    atomic.Bool            // the next DB lookup of a reader is held before it returns
+	heldCh chan chan struct{}     // a reader reports that it is held (and how to release it)
+	held   [3][]vc08Held          // held readers per space (0 accounts, 1 resources, 2 KV)
 	ops    []interface{}
 
 	// universe
@@ -253,6 +259,7 @@ func (w *vc08World) openTrackers() {
 	require.NoError(w.t, err)
 	err = w.ml.trackers.loadFromDisk(w.ml)
 	require.NoError(w.t, err)
+	w.au.accountsq = &vc08Reader{AccountsReader: w.au.accountsq, w: w}
 }
 
 func (w *vc08World) latest() basics.Round { return w.ml.Latest() }
@@ -320,6 +327,7 @@ func (w *vc08World) opPost(reader func()) {
 
 func (w *vc08World) opReload() {
 	require.Equal(w.t, 0, w.phase)
+	require.Equal(w.t, 0, w.nheld())
 	w.gate.step = false
 	w.ml.trackers.close()
 	w.openTrackers()
@@ -342,6 +350,118 @@ func (w *vc08World) opPrune(na, nr, nk int) {
 	w.au.baseKVs.prune(nk)
 	w.au.accountsMu.Unlock()
 	w.ops = append(w.ops, vL(vSym("x"), na, nr, nk))
+}
+
+// ---------- readers held between their DB read and their cache write ----------
+// au.accountsq is wrapped: when armed, the next lookup returns from the database, reports in and
+// waits.  The real lookup code then continues (round re-check, writePending / writeNotFoundPending)
+// whenever the harness releases it -- a reader goroutine preempted right after its SQL query.
+type vc08Reader struct {
+	trackerdb.AccountsReader
+	w *vc08World
+}
+
+type vc08Held struct {
+	rel  chan struct{}
+	done chan interface{}
+}
+
+func (r *vc08Reader) hold() {
+	if r.w.arm.CompareAndSwap(true, false) {
+		rel := make(chan struct{})
+		r.w.heldCh <- rel
+		<-rel
+	}
+}
+
+func (r *vc08Reader) LookupAccount(addr basics.Address) (trackerdb.PersistedAccountData, error) {
+	d, err := r.AccountsReader.LookupAccount(addr)
+	r.hold()
+	return d, err
+}
+
+func (r *vc08Reader) LookupResources(addr basics.Address, aidx basics.CreatableIndex, ctype basics.CreatableType) (trackerdb.PersistedResourcesData, error) {
+	d, err := r.AccountsReader.LookupResources(addr, aidx, ctype)
+	r.hold()
+	return d, err
+}
+
+func (r *vc08Reader) LookupKeyValue(key string) (trackerdb.PersistedKVData, error) {
+	d, err := r.AccountsReader.LookupKeyValue(key)
+	r.hold()
+	return d, err
+}
+
+// issue a public lookup with the next DB read held; if the lookup is answered without the DB it is
+// an ordinary query
+func (w *vc08World) opStall(space int, rnd, a, c uint64, key string) bool {
+	require.NotEqual(w.t, 2, w.phase)
+	done := make(chan interface{}, 1)
+	w.arm.Store(true)
+	go func() {
+		switch space {
+		case 0:
+			done <- w.qAcct(rnd, a)
+		case 1:
+			done <- w.qRes(rnd, a, c)
+		default:
+			done <- w.qKv(rnd, key)
+		}
+	}()
+	select {
+	case rel := <-w.heldCh:
+		w.held[space] = append(w.held[space], vc08Held{rel, done})
+		switch space {
+		case 0:
+			w.ops = append(w.ops, vL(vSym("sa"), rnd, a))
+		case 1:
+			w.ops = append(w.ops, vL(vSym("sr"), rnd, a, c))
+		default:
+			w.ops = append(w.ops, vL(vSym("sk"), rnd, []byte(key)))
+		}
+		w.stats["op_stall"]++
+		return true
+	case obs := <-done:
+		w.arm.Store(false)
+		w.count(obs)
+		switch space {
+		case 0:
+			w.ops = append(w.ops, vL(vSym("qa"), rnd, a, obs))
+		case 1:
+			w.ops = append(w.ops, vL(vSym("qr"), rnd, a, c, obs))
+		default:
+			w.ops = append(w.ops, vL(vSym("qk"), rnd, []byte(key), obs))
+		}
+		return false
+	case <-time.After(20 * time.Second):
+		w.t.Fatalf("held lookup neither held nor answered")
+		return false
+	}
+}
+
+func (w *vc08World) opLand(space, n int) {
+	h := w.held[space][n]
+	w.held[space] = append(append([]vc08Held{}, w.held[space][:n]...), w.held[space][n+1:]...)
+	close(h.rel)
+	var obs interface{}
+	select {
+	case obs = <-h.done:
+	case <-time.After(20 * time.Second):
+		w.t.Fatalf("released reader never returned")
+	}
+	w.count(obs)
+	w.ops = append(w.ops, vL(vSym("la"), space, n, obs))
+	w.stats["op_land"]++
+}
+
+func (w *vc08World) nheld() int { return len(w.held[0]) + len(w.held[1]) + len(w.held[2]) }
+
+func (w *vc08World) landAll() {
+	for sp := 0; sp < 3; sp++ {
+		for len(w.held[sp]) > 0 {
+			w.opLand(sp, 0)
+		}
+	}
 }
 
 func vc08Err(err error) interface{} {
@@ -844,6 +964,7 @@ func vc08NewWorld(t *testing.T, stats map[string]int, lookback uint64, disableCa
 	_, err := trackerDBInitialize(w.ml, false, ".")
 	require.NoError(t, err)
 	w.gate = &vc08Gate{g1: make(chan struct{}), g1r: make(chan struct{}), g2: make(chan struct{}), g2r: make(chan struct{})}
+	w.heldCh = make(chan chan struct{})
 	w.openTrackers()
 	w.gate.step = true
 	return
@@ -851,6 +972,12 @@ func vc08NewWorld(t *testing.T, stats map[string]int, lookback uint64, disableCa
 
 func (w *vc08World) close() {
 	w.gate.step = false
+	for sp := 0; sp < 3; sp++ {
+		for _, h := range w.held[sp] {
+			close(h.rel)
+		}
+		w.held[sp] = nil
+	}
 	w.ml.Close()
 }
 
@@ -909,9 +1036,29 @@ func vc08RunCase(t *testing.T, r *vRand, caseNo int, nops int, out *vOut, stats 
 			}
 			w.opSchedule(rr)
 			stats["op_sched"]++
-		case w.phase == 0 && c >= 60 && c < 64:
+		case w.phase == 0 && c >= 60 && c < 64 && w.nheld() == 0:
 			w.opReload()
 			stats["op_reload"]++
+		case w.phase != 2 && c >= 72 && c < 77:
+			// a reader held after its DB read (oldest servable round: most likely to reach the DB)
+			rnd := R
+			if r.Intn(3) == 0 {
+				rnd = R + uint64(r.Intn(int(lat-R)+1))
+			}
+			switch r.Intn(3) {
+			case 0:
+				w.opStall(0, rnd, w.addrs[r.Intn(len(w.addrs))], 0, "")
+			case 1:
+				w.opStall(1, rnd, w.addrs[r.Intn(len(w.addrs))], w.cidxs[r.Intn(len(w.cidxs))], "")
+			default:
+				w.opStall(2, rnd, 0, 0, w.keys[r.Intn(len(w.keys))])
+			}
+		case c >= 77 && c < 81 && w.nheld() > 0:
+			sp := r.Intn(3)
+			for len(w.held[sp]) == 0 {
+				sp = (sp + 1) % 3
+			}
+			w.opLand(sp, r.Intn(len(w.held[sp])))
 		case c >= 64 && c < 67:
 			w.opFlush()
 			stats["op_flush"]++
@@ -936,6 +1083,8 @@ func vc08RunCase(t *testing.T, r *vRand, caseNo int, nops int, out *vOut, stats 
 		}
 	}
 	// drain
+	w.landAll()
+	w.dump()
 	for w.phase != 0 {
 		if w.phase == 1 {
 			w.opCommit()
@@ -1044,4 +1193,97 @@ func TestVerifC08NonWF(t *testing.T) {
 		require.Equal(t, vT(vSym("ok"), 7, 3), vT(after.([]interface{})...))
 		w.emit(out, gen)
 	})
+}
+
+// A reader held across a commit and a turnover of the base cache: with the original
+// flushPendingWrites its late cache write plants a stale entry (C08_late_pending_refuted, signature
+// late_pending_cache_write); with flushPendingWritesSince it is dropped.  The eviction by a large
+// working set is stood in for by a prune of the base caches (TestVerifC08LatePendingTurnover does it
+// with a real 100002-account block).
+func TestVerifC08LatePending(t *testing.T) {
+	if os.Getenv("VERIF_OUT") == "" {
+		t.Skip("VERIF_OUT not set")
+	}
+	out := vOpen("cases_late.txt")
+	defer out.Close()
+	stats := map[string]int{}
+	commitAll := func(w *vc08World, rnd uint64) {
+		w.opSchedule(rnd)
+		w.dump()
+		w.opCommit()
+		w.dump()
+		w.opPost(nil)
+		w.dump()
+	}
+	acct := func(a, algos uint64) *vc08Delta {
+		d := &vc08Delta{}
+		d.accts = append(d.accts, struct {
+			addr uint64
+			a    vc08Acct
+		}{a, vc08Acct{algos: algos}})
+		return d
+	}
+	t.Run("data", func(t *testing.T) {
+		w, gen := vc08NewWorld(t, stats, 0, false, []vc08Gen{{1, vc08Acct{algos: 100}}})
+		defer w.close()
+		w.dump()
+		require.True(t, w.opStall(0, 0, 1, 0, "")) // reads (1, 100) at DB round 0 and is held
+		w.opBlock(acct(1, 200))
+		w.dump()
+		commitAll(w, 1)
+		w.opPrune(0, 0, 0)
+		w.dump()
+		w.opLand(0, 0)
+		w.dump()
+		w.opBlock(&vc08Delta{}) // flushPendingWrites
+		w.dump()
+		obs := w.qAcct(2, 1)
+		w.ops = append(w.ops, vL(vSym("qa"), 2, 1, obs))
+		stats["late_data_answer_"+vT(obs.([]interface{})...)]++
+		w.emit(out, gen)
+	})
+	t.Run("notfound", func(t *testing.T) {
+		w, gen := vc08NewWorld(t, stats, 0, false, []vc08Gen{{1, vc08Acct{algos: 100}}})
+		defer w.close()
+		w.dump()
+		require.True(t, w.opStall(0, 0, 3, 0, "")) // account 3 does not exist at DB round 0
+		w.opBlock(acct(3, 50))
+		w.dump()
+		commitAll(w, 1)
+		w.opPrune(0, 0, 0)
+		w.dump()
+		w.opLand(0, 0)
+		w.dump()
+		w.opFlush() // Ledger.FlushCaches (called by every Eval)
+		w.dump()
+		obs := w.qAcct(1, 3)
+		w.ops = append(w.ops, vL(vSym("qa"), 1, 3, obs))
+		stats["late_notfound_answer_"+vT(obs.([]interface{})...)]++
+		w.emit(out, gen)
+	})
+	t.Run("kv", func(t *testing.T) {
+		w, gen := vc08NewWorld(t, stats, 0, false, []vc08Gen{{1, vc08Acct{algos: 100}}})
+		defer w.close()
+		w.dump()
+		require.True(t, w.opStall(2, 0, 0, 0, "q"))
+		w.opBlock(&vc08Delta{kv: []vc08Kv{{"q", []byte{5}, nil}}})
+		w.dump()
+		commitAll(w, 1)
+		w.opPrune(0, 0, 0)
+		w.dump()
+		w.opLand(2, 0)
+		w.dump()
+		w.opBlock(&vc08Delta{})
+		w.dump()
+		obs := w.qKv(2, "q")
+		w.ops = append(w.ops, vL(vSym("qk"), 2, []byte("q"), obs))
+		stats["late_kv_answer_"+vT(obs.([]interface{})...)]++
+		w.emit(out, gen)
+	})
+	st := map[string]interface{}{}
+	for k, v := range stats {
+		st[k] = v
+	}
+	b, _ := json.MarshalIndent(st, "", " ")
+	os.WriteFile(filepath.Join(os.Getenv("VERIF_OUT"), "stats_late.json"), b, 0644)
 }
